@@ -168,10 +168,22 @@ def rand_bytes(rng, text_safe):
     return bytes(b)
 
 
+# item kinds (by the prefix passed to ModGen.fresh) that may get a reserved temporary name .lc<N>
+LC_PREFIXES = {'d', 'b', 's', 'r', 'lr', 'lq', 'xd', 'xb', 'xr', 'xe'}
+# names that look reserved but are not canonical: strtoul reads 007 as 7, stops at x, reads nothing,
+# wraps modulo 2^32 (process_reserved_name keeps the value in a uint32_t)
+LC_EDGE = ['.lc007', '.lc12x', '.lc', '.lc4294967297', '.lc0', '.lcx']
+
+
 class ModGen:
-    def __init__(self, rng, table, text_safe=True, label_base=0, big=False, canon_labels=False):
+    def __init__(self, rng, table, text_safe=True, label_base=0, big=False, canon_labels=False, split_ctx=0.0,
+                 temp_names=0.0):
         self.rng, self.table, self.text_safe, self.big = rng, table, text_safe, big
         self.canon_labels = canon_labels
+        self.split_ctx = split_ctx        # probability of a context break (newctx) between two modules
+        self.temp_names = temp_names      # probability that a module uses reserved temporary names (.lc<N>, t<N>)
+        self.lc_pool = []
+        self.treg = False
         self.nlabels = label_base      # labels made so far in the context
         self.stmts = []
         self.closed = False
@@ -182,6 +194,10 @@ class ModGen:
     # ------------------------------------------------------------ names
     def fresh(self, prefix):
         rng = self.rng
+        if prefix in LC_PREFIXES and self.lc_pool and rng.random() < 0.7:
+            n = self.lc_pool.pop()
+            self.names.add(n)
+            return n
         while True:
             self.counter += 1
             style = rng.random()
@@ -343,6 +359,10 @@ class ModGen:
         for i in range(nl):
             t = rng.choice(REG_T + ['i64'] * 3)
             n = 'v%d%s' % (i, rng.choice(['', '', '_', '.x', '$']))
+            if self.treg and rng.random() < 0.4:
+                n = 't%d' % rng.choice([1, 2, 3, 7, 10, 40 + i])      # looks like a temporary register of simplify
+                if n in regs['int'] + regs['f'] + regs['d'] + regs['ld']:
+                    n = 'v%d' % i
             self.emit('local %s %s' % (t, n))
             regs['int' if t == 'i64' else t].append(n)
         if globals_ok and rng.random() < 0.25:
@@ -660,6 +680,24 @@ class ModGen:
         self.names = set()
         self.exported = set()
         lref_cands = []
+        self.lc_pool, self.treg = [], False
+        if rng.random() < self.temp_names:
+            # reserved names as c2m makes them (_MIR_get_temp_item_name), used in an order that is not the creation
+            # order (c2m moves string data to the module start), sometimes with gaps
+            k = rng.choice([2, 3, 5, 9])
+            pool = list(range(1, k + 1))
+            if rng.random() < 0.3:
+                pool = [x * rng.choice([1, 2]) + rng.choice([0, 0, 3]) for x in pool]
+            pool = ['.lc%d' % x for x in dict.fromkeys(pool)]
+            mode = rng.random()
+            if mode < 0.5:
+                rng.shuffle(pool)
+            elif mode < 0.75:
+                pool.sort(key=lambda x: int(x[3:]))      # popped from the end: descending definitions
+            if rng.random() < 0.25:
+                pool.insert(rng.randint(0, len(pool)), rng.choice(LC_EDGE))
+            self.lc_pool = pool
+            self.treg = rng.random() < 0.5
         if self.big:
             # several KiB without any repetition: literal runs of maximal length in the compression layer
             self.emit('data %s u64 %s' % (self.fresh('rnd'), ' '.join(str(rng.getrandbits(64)) for _ in range(rng.randint(300, 900)))))
@@ -742,6 +780,9 @@ class ModGen:
 
     def case(self, nmodules=1, n_items=6, with_exec=True):
         for i in range(nmodules):
+            if i > 0 and self.rng.random() < self.split_ctx:
+                self.emit('newctx')
+                self.nlabels = 0
             self.gen_module('m%d%s' % (i, self.rng.choice(['', '_', '.x'])), n_items, with_exec and i == nmodules - 1,
                             closed=with_exec)
         if with_exec:
